@@ -92,6 +92,14 @@ VStepMap(e) == LET d == Docs[e.di] IN
   ELSE LET exact == e.step.type \in {"replace", "replaceAround"} IN
        IF ~RangesOK(e.map) THEN "bad:MapRanges"
        ELSE IF ~Faithful(d, e.out, e.map, exact) THEN "bad:Faithful"
+       \* the map *function*: every old token outside the ranges, taken as the interval [i-1, i], is sent by the
+       \* library's StepMap.map to the interval where that token is found in the new document
+       \* (not judged for maps with two ranges touching each other - an empty-gap replace-around: upstream's
+       \* first-matching-range rule stops at the first of them, the interpretation already fixed for C08)
+       ELSE IF e.mapped # <<>> /\ (\A x \in 1..(Len(e.map) - 1) : e.map[x][1] + e.map[x][2] < e.map[x + 1][1])
+               /\ ~(\A i \in 1..Len(d) : RangeOf(e.map, 1, i) = 0 =>
+                                      /\ e.mapped[i][1] = i - 1 + ShiftAt(e.map, 1, i)
+                                      /\ e.mapped[i + 1][2] = i + ShiftAt(e.map, 1, i)) THEN "bad:MappedPosition"
        ELSE IF e.map # GetMap(e.step).ranges THEN "drift:GetMap"
        ELSE "ok"
 
